@@ -169,6 +169,85 @@ fn undersized_case(enc: &'static encoding_rs::Encoding, sniff: bool, raw: bool, 
     None
 }
 
+/// the same for the String-receiving methods: a String whose spare capacity is 0..=3 bytes (and
+/// holds bytes that are not valid UTF-8); after the call - returned or panicked - the String must
+/// be valid, must still start with its old contents and must not have been reallocated
+fn undersized_string_case(enc: &'static encoding_rs::Encoding, sniff: bool, raw: bool, stream: &[u8], cut: usize, dlen: usize, small: u8) -> Option<String> {
+    let mut d = if sniff { enc.new_decoder() } else { enc.new_decoder_without_bom_handling() };
+    let chunks: [(&[u8], bool); 2] = [(&stream[..cut], false), (&stream[cut..], true)];
+    for (ci, (chunk, last)) in chunks.iter().enumerate() {
+        let mut off = 0usize;
+        for _call in 0..12 {
+            let spare = if small & (1 << ci) != 0 { dlen } else { 64 };
+            let mut s = String::with_capacity(2 + spare);
+            s.push('\u{E9}');
+            let cap = s.capacity();
+            let ptr = s.as_ptr();
+            // SAFETY: writes stay inside the allocation (len..capacity) and do not change len
+            unsafe {
+                let p = s.as_mut_ptr().add(s.len());
+                for i in 0..(cap - s.len()) {
+                    p.add(i).write([0xFFu8, 0xBF, 0xC0, 0x80][i & 3]);
+                }
+            }
+            let src = &chunk[off..];
+            let r = fw::catch(|| {
+                if raw {
+                    let (r, read) = d.decode_to_string_without_replacement(src, &mut s, *last);
+                    (matches!(r, encoding_rs::DecoderResult::InputEmpty), matches!(r, encoding_rs::DecoderResult::Malformed(..)), read)
+                } else {
+                    let (r, read, _) = d.decode_to_string(src, &mut s, *last);
+                    (matches!(r, encoding_rs::CoderResult::InputEmpty), false, read)
+                }
+            });
+            let what = |m: String| {
+                Some(format!(
+                    "decode_to_string{}(src = [{}], last = {}) on a String with {} spare bytes ({}; bytes fed before: [{}]): {}",
+                    if raw { "_without_replacement" } else { "" },
+                    fw::hex(src),
+                    last,
+                    cap - 2,
+                    match &r {
+                        Ok(_) => "the call returned".to_string(),
+                        Err(p) => format!("the call panicked: {}", p),
+                    },
+                    fw::hex(&stream[..(if ci == 0 { off } else { cut + off })]),
+                    m
+                ))
+            };
+            if s.len() > s.capacity() || s.capacity() != cap || s.as_ptr() != ptr {
+                return what(format!("the String was reallocated or its length {} exceeds its capacity {}", s.len(), s.capacity()));
+            }
+            // look at the raw bytes (as_bytes on a possibly invalid String is what we are checking)
+            let bytes: Vec<u8> = unsafe { std::slice::from_raw_parts(s.as_ptr(), s.len()) }.to_vec();
+            if std::str::from_utf8(&bytes).is_err() {
+                std::mem::forget(s);
+                return what(format!("the String is left holding invalid UTF-8 [{}]", fw::hex(&bytes)));
+            }
+            if !bytes.starts_with("\u{E9}".as_bytes()) {
+                return what(format!("the String's previous contents were altered: [{}]", fw::hex(&bytes)));
+            }
+            match r {
+                Err(_) => return None,
+                Ok((input_empty, malformed, read)) => {
+                    if read > src.len() {
+                        return what(format!("read {} of {}", read, src.len()));
+                    }
+                    let written = bytes.len() - 2;
+                    off += read;
+                    if input_empty {
+                        break;
+                    }
+                    if read == 0 && written == 0 && !malformed {
+                        return None;
+                    }
+                }
+            }
+        }
+    }
+    None
+}
+
 fn undersized_str(ctx: &Ctx) -> Stats {
     let all = encs::all();
     let thorough = ctx.tier == fw::Tier::Thorough;
@@ -191,6 +270,18 @@ fn undersized_str(ctx: &Ctx) -> Stats {
             for cut in 0..=stream.len() {
                 for dlen in 0..=3usize {
                     for raw in [false, true] {
+                        for small in [1u8, 2, 3] {
+                            st.evals += 1;
+                            st.class("String-with-0..=3-spare-bytes");
+                            if let Some(msg) = undersized_string_case(enc, sniff, raw, stream, cut, dlen, small) {
+                                st.violations.push(Violation {
+                                    msg: format!("{} [{}]: {}", enc.name(), if sniff { "sniffing" } else { "no BOM handling" }, msg),
+                                    sig: "C05:undersized-string".into(),
+                                    case: json!({"kind": "c05_undersized_string", "encoding": encs::const_name(enc), "sniff": sniff, "raw": raw, "stream_hex": fw::hex(stream), "cut": cut, "dst_len": dlen, "small_chunks": small}),
+                                });
+                                return;
+                            }
+                        }
                         for fill in [1u8, 2, 0] {
                           for small in [1u8, 2, 3] {
                             st.evals += 1;
@@ -250,7 +341,7 @@ pub fn run(ctx: &Ctx) -> i32 {
     let mut st = one_shot_and_reuse(ctx);
     if !fw::should_stop() {
         st.merge(undersized_str(ctx));
-        st.exhaustive.push("40 encodings x with/without BOM sniffing x every atom and atom pair (up to 5 bytes) x every cut incl. the empty final call x &mut str destinations of 0..=3 bytes for the first / second / both chunks (64 bytes otherwise) x 3 filler texts x decode_to_str / decode_to_str_without_replacement".into());
+        st.exhaustive.push("40 encodings x with/without BOM sniffing x every atom and atom pair (up to 5 bytes) x every cut incl. the empty final call x &mut str destinations of 0..=3 bytes for the first / second / both chunks (64 bytes otherwise) x 3 filler texts x decode_to_str / decode_to_str_without_replacement, and Strings with 0..=3 spare bytes (spare capacity pre-filled with invalid bytes) x decode_to_string / decode_to_string_without_replacement".into());
     }
     if !fw::should_stop() {
         let fam = MemFamily {
@@ -274,6 +365,15 @@ pub fn replay(case: &serde_json::Value) -> Option<Vec<Violation>> {
     match case.get("kind").and_then(|k| k.as_str()) {
         Some("mem") => memfam::replay_mem(case, "C05", false),
         Some("dec_history") => dech::replay_with(case, &dech::verdict_c05),
+        Some("c05_undersized_string") => {
+            let enc = encs::by_const(case.get("encoding")?.as_str()?)?;
+            let stream = fw::unhex(case.get("stream_hex")?.as_str()?);
+            let cut = (case.get("cut")?.as_u64()? as usize).min(stream.len());
+            Some(match undersized_string_case(enc, case.get("sniff")?.as_bool()?, case.get("raw")?.as_bool()?, &stream, cut, case.get("dst_len")?.as_u64()? as usize, case.get("small_chunks")?.as_u64()? as u8) {
+                None => vec![],
+                Some(msg) => vec![Violation { msg: format!("{}: {}", enc.name(), msg), sig: "C05:undersized-string".into(), case: case.clone() }],
+            })
+        }
         Some("c05_undersized") => {
             let enc = encs::by_const(case.get("encoding")?.as_str()?)?;
             let stream = fw::unhex(case.get("stream_hex")?.as_str()?);
